@@ -586,3 +586,29 @@ pub fn from_wire(fmt: Fmt, v: &Value) -> Resp {
         security_parameter: v["security_parameter"].as_u64().unwrap_or(0),
     }
 }
+
+// ---------------------------------------------------------------------------------------------
+// material a dishonest aggregator can make on its own: a self-consistent proof over its own tree
+// ---------------------------------------------------------------------------------------------
+
+/// the leaf the real code derives from an item (same conversions as prover and verifier)
+pub fn real_leaf(it: &Item) -> MKTreeNode {
+    use mithril_common::entities::{IntoMKTreeNode, SlotNumber};
+    match it {
+        Item::Hash(h) => h.as_str().into(),
+        Item::Tx { th, bh, n, s } => {
+            CardanoTransaction::new(th.clone(), BlockNumber(*n), SlotNumber(*s), bh.clone()).into_mk_tree_node()
+        }
+        Item::Block { bh, n, s } => CardanoBlock::new(bh.clone(), BlockNumber(*n), SlotNumber(*s)).into_mk_tree_node(),
+    }
+}
+
+/// a real `MKTree` over `tree_items` and its (valid) proof for `proven`, as a one-level map proof
+pub fn self_made_sub_proof(tree_items: &[Item], proven: &[Item]) -> PMap {
+    let leaves: Vec<MKTreeNode> = tree_items.iter().map(real_leaf).collect();
+    let tree = MKTree::<S>::new(&leaves).expect("self-made tree");
+    let proof = tree.compute_proof(&proven.iter().map(real_leaf).collect::<Vec<_>>()).expect("self-made proof");
+    let mp: MKMapProof<BlockRange> = proof.into();
+    mp.verify().expect("a self-made sub-proof is a valid proof of its own tree");
+    PMap::from_real(&mp)
+}
